@@ -24,7 +24,7 @@ import props
 import pyleg
 
 KIND = "c17tool"
-N_CASES = {"quick": 80, "thorough": 800}  # half averageoverbed cases (6 invocations each), half valuesoverbed
+N_CASES = {"quick": 240, "thorough": 2400}  # half averageoverbed cases (6 invocations each), half valuesoverbed
 THREADS = [1, 2, 3, 4, 8, 16]
 TOL = 5.01e-4
 CHROMS = ["chr1", "chr10", "chr2", "chrX", "a", "Z", "chrM"]
